@@ -392,6 +392,21 @@ def _eval_frameworks(case, real_optimize=False):
             got["mem"] = _read_all(res, f"frameworks:{kind}:mem", ds_a)
             if second and got["mem"] is not None:
                 got["mem"] = _read_all(res, f"frameworks:{kind}:mem:second-pass", ds_a)
+        if case.get("reuse_dir"):
+            # history: the chunk directory was used before, in this process, by a dataset over DIFFERENT labels (every
+            # keypoint moved by 3 px) that was read completely; the judged dataset then regenerates its chunks there
+            import copy
+
+            spec0 = copy.deepcopy(spec)
+            for f in spec0["frames"]:
+                v = spec0["videos"][f["video"]]
+                for i in f["instances"]:
+                    i["pts"] = [None if p_ is None else [p_[0] + (3.0 if p_[0] < v["w"] / 2 else -3.0), p_[1] + (3.0 if p_[1] < v["h"] / 2 else -3.0)] for p_ in i["pts"]]
+            labels_0, _ = synth.build_labels(spec0, d + "/src")
+            ds_0 = runner.guarded(res, f"frameworks:{kind}:npz:earlier-dataset-in-same-directory", _make_dataset, kind, labels_0, cfg, True, d + "/npz")
+            if ds_0 is not runner.FAILED:
+                _read_all(res, f"frameworks:{kind}:npz:earlier-dataset-in-same-directory", ds_0)
+            res.cls("history=chunk-directory-used-before")
         ds_b = runner.guarded(res, f"frameworks:{kind}:npz:construct", _make_dataset, kind, labels_b, cfg, True, d + "/npz")
         if ds_b is not runner.FAILED:
             got["npz"] = _read_all(res, f"frameworks:{kind}:npz", ds_b)
@@ -633,7 +648,7 @@ def strategy_frameworks(fixed_kind=None, fixed_scale_class=None):
         spec = {"skeleton": {"n_nodes": n_nodes, "edges": [[i, i + 1] for i in range(n_nodes - 1)]}, "videos": videos, "frames": frames}
         # half of the cases compare what the frameworks return on a second pass over the data (state written back
         # by the first pass - caches, in-place edits - shows there)
-        return {"kind": kind, "spec": spec, "cfg": cfg, "epochs": draw(st.sampled_from([1, 2]))}
+        return {"kind": kind, "spec": spec, "cfg": cfg, "epochs": draw(st.sampled_from([1, 2])), "reuse_dir": draw(st.sampled_from([False, False, True]))}
 
     return case()
 
